@@ -64,7 +64,11 @@ func GetSession(sid string) (*Session, bool) {
 	// Extend session expiration if close to expiring
 	if time.Until(sess.ExpiresAt) <= extendThreshold {
 		slog.Debug("Session close to expiring, extending expiration", "session_id", sid, "expires_at", sess.ExpiresAt)
-		sess.ExpiresAt = time.Now().Add(defaultLifetime)
+		// Other requests with this cookie and the session GC read the stored session without
+		// further locking: replace it by an extended copy instead of writing into it.
+		extended := *sess
+		extended.ExpiresAt = time.Now().Add(defaultLifetime)
+		sess = &extended
 		sessionStore.Set(sid, sess)
 	}
 
